@@ -14,9 +14,9 @@ def observe(it):
 def run(ctx):
     q = ctx.tier == "quick"
     ctx.assumptions += [
-        "lookup: all 2^8 (quick) / 2^11 (thorough) sorted dictionaries over a key universe with keys adjacent in index and sub-index and at both ends of the key space; flags varied in entries and in requests",
+        "lookup: all 2^11 (quick) / 2^14 (thorough) sorted dictionaries over a key universe with keys adjacent in index and sub-index and at both ends of the key space; flags varied in entries and in requests",
         "index 0 / sub-index 0 with non-zero flags is not looked up (index 0000h is reserved; key 0 means 'no key' in this API)",
-        "typed access: widths 1/2/4 x direct/referenced x node-id flag x boundary values x node id {1,2,127}; buffer access to domains and strings of 3/5/300 bytes with lengths around 0, the size and the 8-bit boundary 255/256/257",
+        "typed access: widths 1/2/4 x direct/referenced x node-id flag x boundary values x node id {1,2,127} (thorough: every node id 1..127, every 8-bit value, 36 16-bit and 21 32-bit values); buffer access to domains and strings of 3/5/300 bytes (thorough: also 256 and 4000) with lengths around 0, the size, the 8-bit boundary 255/256/257 (thorough: up to 4001)",
         "buffer access to an integer entry with a length other than its width is a named deviation (IntBufOtherLen) and not asserted",
         "the dictionary array is a heap block of exactly n+1 entries (ASan red zones on both sides); empty strings / zero-size domains are outside the alphabet (size 0 is this stack's 'invalid' sentinel)",
     ]
